@@ -66,6 +66,10 @@ pub enum Op {
     NodeUp,
     /// Arms a failure of the n-th block download of the next poll.
     FetchFault { nth: u32, persistent: bool },
+    /// Environment thread only: yields until the node is down (or `max` scheduling points went by).
+    WaitNodeDown { max: u32 },
+    /// Chain thread (C12): yields until the node is reachable again (or `max` scheduling points went by).
+    WaitNodeUp { max: u32 },
     /// Forces the node's answer to `sendrawtransaction(tx)`: 0 = unknown error code, 1 = undecodable reply.
     ForceVerdict { tx: TxRef, kind: u32 },
 }
@@ -117,6 +121,8 @@ impl Op {
             Op::NodeUp => "node_up",
             Op::FetchFault { .. } => "fetch_fault",
             Op::ForceVerdict { .. } => "force_verdict",
+            Op::WaitNodeDown { .. } => "wait_node_down",
+            Op::WaitNodeUp { .. } => "wait_node_up",
         }
     }
 }
